@@ -71,8 +71,32 @@ const lmax = 70000
 var syms = map[string]uint64{"Z": 0, "ONE": 1, "TWO": 2, "B255": 255, "U31": 1 << 31, "U32M": math.MaxUint32,
 	"U63": 1 << 63, "U64M": math.MaxUint64, "L0": 0, "L1": 1, "LMAX": lmax}
 
+// varint boundary symbols: V<k>M = 2^(7k)-1, V<k> = 2^(7k), V<k>P = 2^(7k)+1; N<n> = n (a body length)
+func boundary(s string) (uint64, bool) {
+	if len(s) >= 2 && s[0] == 'N' {
+		v, err := strconv.ParseUint(s[1:], 10, 32)
+		return v, err == nil
+	}
+	if len(s) < 2 || s[0] != 'V' || s[1] < '1' || s[1] > '9' {
+		return 0, false
+	}
+	base := uint64(1) << (7 * uint(s[1]-'0'))
+	switch s[2:] {
+	case "M":
+		return base - 1, true
+	case "":
+		return base, true
+	case "P":
+		return base + 1, true
+	}
+	return 0, false
+}
+
 func val(s string) uint64 {
 	if v, ok := syms[s]; ok {
+		return v
+	}
+	if v, ok := boundary(s); ok {
 		return v
 	}
 	v, err := strconv.ParseUint(s, 10, 64)
@@ -87,6 +111,16 @@ func usym(v uint64) string {
 	for _, s := range []string{"Z", "ONE", "U31", "U32M", "U63", "U64M"} {
 		if syms[s] == v {
 			return s
+		}
+	}
+	for k := uint(1); k <= 9; k++ {
+		switch base := uint64(1) << (7 * k); v {
+		case base - 1:
+			return fmt.Sprintf("V%dM", k)
+		case base:
+			return fmt.Sprintf("V%d", k)
+		case base + 1:
+			return fmt.Sprintf("V%dP", k)
 		}
 	}
 	return strconv.FormatUint(v, 10)
@@ -106,6 +140,9 @@ func lsym(b []byte) string {
 		if len(b) == int(syms[s]) && bytes.Equal(b, filler(len(b))) {
 			return s
 		}
+	}
+	if bytes.Equal(b, filler(len(b))) {
+		return fmt.Sprintf("N%d", len(b))
 	}
 	return fmt.Sprintf("DIFF:%d", len(b))
 }
@@ -288,6 +325,16 @@ func realEncode(f *Frame) ([]byte, error) {
 	}
 	vt.Fatal("no encoder for %q", f.Codec)
 	return nil, nil
+}
+
+// safeEncode: a panicking encoder is a wrong encoder, not a dead harness.
+func safeEncode(f *Frame) (enc []byte, err error) {
+	defer func() {
+		if p := recover(); p != nil {
+			enc, err = nil, fmt.Errorf("encoder panic: %v", p)
+		}
+	}()
+	return realEncode(f)
 }
 
 func editOf(f *Frame) manifest.Edit {
@@ -769,7 +816,7 @@ func runFrame(f *Frame, emit func(vt.Ev)) {
 	ev := vt.Ev{"e": "Frame", "codec": f.Codec, "valid": f.Valid, "mut": f.Mut, "fields": f.Fields, "len": len(data)}
 	encEqual, encNote := true, ""
 	if f.Valid {
-		enc, err := realEncode(f)
+		enc, err := safeEncode(f)
 		if err != nil {
 			encEqual, encNote = false, "encoder error: "+err.Error()
 		} else if !bytes.Equal(enc, data) {
